@@ -57,9 +57,9 @@ Print Assumptions C05_advance_compositional.
 (* T4 — values: a token's value is its span for the non-decoding kinds and the
    span with hex escapes replaced (and, for strings, escaped newlines
    removed) for the decoding kinds *)
-Theorem C05_values text doc fuel line col :
-  Forall value_ok (fst (loop fuel (length text + 4) false doc text line col)).
-Proof. exact (loop_values (length text + 4) doc fuel text line col). Qed.
+Theorem C05_values text doc fuel afS line col :
+  Forall value_ok (fst (loop fuel (length text + 4) false doc afS text line col)).
+Proof. exact (loop_values (length text + 4) doc fuel afS text line col). Qed.
 Print Assumptions C05_values.
 
 (* escape decoding is a single left-to-right pass: an escaped backslash is
